@@ -420,6 +420,8 @@ def check_xproc(case):
 
 TOPO_UNIVERSE = [("Cache-A", 11211), ("mc2", 11212), ("10.0.0.3", 11211), "/tmp/u.sock", ("mc2", 11213)]
 TOPO_KEYS = ["k%d" % i for i in range(12)]
+# a second hash client lives in the same process, over servers of its own that never fail: none of the first one's business
+TOPO_BYSTANDERS = [("bystander-1", 11211), ("bystander-2", 11211)]
 
 
 def _topo_name(spec):
@@ -444,7 +446,7 @@ def _topo_add(c, spec, sp):
 def _topo_run(case, alt):
     from vlib.harness import Env, virtual_time
     from pymemcache.exceptions import MemcacheError
-    env = Env(addrs=TOPO_UNIVERSE)
+    env = Env(addrs=TOPO_UNIVERSE + TOPO_BYSTANDERS)
     rounds = []
     added = list(case["initial"])
     forks = []          # (index into rounds at the time of the fork, read end of the pipe, child pid)
@@ -464,6 +466,25 @@ def _topo_body(case, alt, env, rounds, added, forks):
     with virtual_time(env.clock):
         c = HashClient([TOPO_UNIVERSE[i] for i in case["initial"]], socket_module=env.net, retry_attempts=0, dead_timeout=60, retry_timeout=1,
                        ignore_exc=case["ignore_exc"], use_pooling=case["pooled"], timeout=1, default_noreply=False)
+        other = HashClient(list(TOPO_BYSTANDERS), socket_module=env.net, retry_attempts=0, dead_timeout=60, retry_timeout=1, ignore_exc=case["ignore_exc"],
+                           use_pooling=not case["pooled"], timeout=1, default_noreply=False)
+        other_names = [_topo_name(a) for a in TOPO_BYSTANDERS]
+        nsrv = len(TOPO_UNIVERSE)
+        def bystander():
+            # the bystander's keys go where the rule over ITS servers puts them, whatever the first client has been through
+            marks2 = [len(s.log) for s in env.servers]
+            for k in TOPO_KEYS:
+                try:
+                    other.get(k)
+                except Exception as e:  # noqa: BLE001
+                    raise Violation(["topology", "bystander-raises", type(e).__name__], "a second HashClient over %r (never failing) raised %r for get(%r)" % (other_names, e, k))
+            for i, s in enumerate(env.servers):
+                for rec in s.log[marks2[i]:]:
+                    for kk in rec.get("keys", ()):
+                        want = nsrv + other_names.index(refhash.place(other_names, kk.decode()))
+                        if i != want:
+                            raise Violation(["topology", "bystander-placement"], "a second HashClient over %r sent %r to %r; the rule over its own servers gives %r"
+                                            % (other_names, kk.decode(), _topo_name(env.addrs[i]), _topo_name(env.addrs[want])))
         for ev in list(case["events"]) + [("up", None), ("adv", 61), ("t",), ("adv", 61), ("t",)]:
             if ev[0] == "add":
                 _topo_add(c, TOPO_UNIVERSE[ev[1]], ev[2] if alt else 0)
@@ -494,6 +515,7 @@ def _topo_body(case, alt, env, rounds, added, forks):
                     os.close(wr)
                     forks.append((len(rounds), rd, pid))
             else:
+                bystander()
                 marks = [len(s.log) for s in env.servers]
                 errs = []
                 for k in TOPO_KEYS:
@@ -518,6 +540,107 @@ def _topo_body(case, alt, env, rounds, added, forks):
                 except Exception as e:  # noqa: BLE001
                     raise Violation(["topology", "internal-error", type(e).__name__], "get_many raised %r" % (e,))
                 rounds.append((where, sorted(set(errs))))
+                bystander()
+        if forks and forks[-1] == "child":
+            os._exit(3)
+        raise
+
+
+def _topo_body(case, alt, env, rounds, added, forks):
+    import pickle
+    from vlib.harness import virtual_time
+    from pymemcache.exceptions import MemcacheError
+    with virtual_time(env.clock):
+        c = HashClient([TOPO_UNIVERSE[i] for i in case["initial"]], socket_module=env.net, retry_attempts=0, dead_timeout=60, retry_timeout=1,
+                       ignore_exc=case["ignore_exc"], use_pooling=case["pooled"], timeout=1, default_noreply=False)
+        other = HashClient(list(TOPO_BYSTANDERS), socket_module=env.net, retry_attempts=0, dead_timeout=60, retry_timeout=1, ignore_exc=case["ignore_exc"],
+                           use_pooling=not case["pooled"], timeout=1, default_noreply=False)
+        other_names = [_topo_name(a) for a in TOPO_BYSTANDERS]
+        nsrv = len(TOPO_UNIVERSE)
+        def bystander():
+            # the bystander's keys go where the rule over ITS servers puts them, whatever the first client has been through
+            marks2 = [len(s.log) for s in env.servers]
+            for k in TOPO_KEYS:
+                try:
+                    other.get(k)
+                except Exception as e:  # noqa: BLE001
+                    raise Violation(["topology", "bystander-raises", type(e).__name__], "a second HashClient over %r (never failing) raised %r for get(%r)" % (other_names, e, k))
+            for i, s in enumerate(env.servers):
+                for rec in s.log[marks2[i]:]:
+                    for kk in rec.get("keys", ()):
+                        want = nsrv + other_names.index(refhash.place(other_names, kk.decode()))
+                        if i != want:
+                            raise Violation(["topology", "bystander-placement"], "a second HashClient over %r sent %r to %r; the rule over its own servers gives %r"
+                                            % (other_names, kk.decode(), _topo_name(env.addrs[i]), _topo_name(env.addrs[want])))
+        for ev in list(case["events"]) + [("up", None), ("adv", 61), ("t",), ("adv", 61), ("t",)]:
+            if ev[0] == "add":
+                _topo_add(c, TOPO_UNIVERSE[ev[1]], ev[2] if alt else 0)
+                if ev[1] not in added:
+                    added.append(ev[1])
+            elif ev[0] == "down":
+                env.servers[ev[1]].down = ev[2]
+            elif ev[0] == "up":
+                for i, s in enumerate(env.servers):
+                    if ev[1] in (None, i):
+                        s.down = None
+            elif ev[0] == "adv":
+                env.clock.advance(ev[1])
+            elif ev[0] == "fork":
+                # the process forks (a pre-forking server, multiprocessing): the child goes on with the client object it
+                # inherited, and for the same events it must send every key where the parent sends it
+                if forks and forks[-1] == "child":
+                    continue
+                sys.stdout.flush()
+                sys.stderr.flush()
+                rd, wr = os.pipe()
+                pid = os.fork()
+                if pid == 0:
+                    os.close(rd)
+                    forks.append((len(rounds), wr))
+                    forks.append("child")
+                else:
+                    os.close(wr)
+                    forks.append((len(rounds), rd, pid))
+            else:
+                bystander()
+                marks = [len(s.log) for s in env.servers]
+                errs = []
+                for k in TOPO_KEYS:
+                    try:
+                        c.get(k)
+                    except (OSError, MemcacheError) as e:
+                        errs.append(type(e).__name__)
+                    except Exception as e:  # noqa: BLE001
+                        raise Violation(["topology", "internal-error", type(e).__name__], "get(%r) raised %r" % (k, e))
+                    if errs and case["ignore_exc"]:
+                        raise Violation(["topology", "escaped-with-ignore_exc"], "get(%r) raised %s with ignore_exc" % (k, errs[-1]))
+                where = {}
+                for i, s in enumerate(env.servers):
+                    for rec in s.log[marks[i]:]:
+                        for kk in rec.get("keys", ()):
+                            where[kk.decode()] = i
+                try:
+                    c.get_many(TOPO_KEYS)
+                except (OSError, MemcacheError) as e:
+                    if case["ignore_exc"]:
+                        raise Violation(["topology", "escaped-with-ignore_exc"], "get_many raised %r with ignore_exc" % (e,))
+                except Exception as e:  # noqa: BLE001
+                    raise Violation(["topology", "internal-error", type(e).__name__], "get_many raised %r" % (e,))
+                rounds.append((where, sorted(set(errs))))
+                # the bystander's keys go where the rule over ITS servers puts them, whatever the first client has been through
+                marks2 = [len(s.log) for s in env.servers]
+                for k in TOPO_KEYS:
+                    try:
+                        other.get(k)
+                    except Exception as e:  # noqa: BLE001
+                        raise Violation(["topology", "bystander-raises", type(e).__name__], "a second HashClient over %r (never failing) raised %r for get(%r)" % (other_names, e, k))
+                for i, s in enumerate(env.servers):
+                    for rec in s.log[marks2[i]:]:
+                        for kk in rec.get("keys", ()):
+                            want = nsrv + other_names.index(refhash.place(other_names, kk.decode()))
+                            if i != want:
+                                raise Violation(["topology", "bystander-placement"], "a second HashClient over %r sent %r to %r; the rule over its own servers gives %r"
+                                                % (other_names, kk.decode(), _topo_name(env.addrs[i]), _topo_name(env.addrs[want])))
         if forks and forks[-1] == "child":
             at, wr = forks[-2]
             with os.fdopen(wr, "wb") as f:
